@@ -12,14 +12,14 @@ from ..oracle import spectrum as O
 
 LEVEL = "exploration"
 NEEDS = ["harness", "cli"]
-RULE = ("positive random spectra with UNEQUAL axis lengths 2-7 (1-4 axes; 3x3 for kinship statistics); relations between recorded statistic values: "
+RULE = ("positive random spectra with UNEQUAL axis lengths 2-7 (1-4 axes; 3x3 for kinship statistics; a sixth of the cases with thousands of entries, e.g. 17x17x17, 70x71, 8193); relations between recorded statistic values: "
         "f3/f4 vs the documented combinations of f2 on two-population marginals; invariance of pi, theta, S, D-Tajima, pi_xy, f2, f3, f4, Fst, KING, "
         "R0, R1 under fold(fill 0); independence of all but sum/f2/f3/f4 from the two monomorphic cells; invariance of f2, Fst, pi_xy, KING, R0, R1 "
         "under swapping the populations; scale invariance of f2, f3, f4, Fst, KING, R0, R1 and linear scaling of sum, S, pi, pi_xy, theta for "
-        "c in 2^-70..2^40 (incl. factors that push the total below f64::EPSILON); monomorphic cells up to 3e15. Allowance abs 1e-9 + rel 1e-9; relations whose value is non-finite (zero denominator) are skipped. "
+        "c in 2^-70..2^40 (incl. factors that push the total below f64::EPSILON); monomorphic cells up to 3e15. Allowance abs 1e-9 + rel 1e-9; relations whose value is non-finite (zero denominator) are skipped, except that with one NaN entry in a polymorphic cell a statistic must stay NaN (or stay the same finite number) under fold(fill 0). "
         "Non-trivial: every relation on a spectrum with unequal axes (or 1-D); distinct = digest(spectrum, relation).")
 ASSUMPTIONS = ["relations are between outputs of the real code only; absolute correctness is C06's job"]
-FLOORS = {"quick": {"evaluations": 1500, "distinct_nontrivial": 1000, "counts": {"rel_f3_f2": 60, "rel_f4_f2": 60, "rel_fold": 500, "rel_monomorphic": 500, "rel_swap": 200, "rel_scale": 500, "C_runs": 100}},
+FLOORS = {"quick": {"evaluations": 1500, "distinct_nontrivial": 1000, "counts": {"rel_f3_f2": 60, "rel_f4_f2": 60, "rel_fold": 500, "rel_monomorphic": 500, "rel_swap": 200, "rel_scale": 500, "C_runs": 100, "large_spectra": 100}},
           "thorough": {"evaluations": 80000, "distinct_nontrivial": 60000, "counts": {"rel_f3_f2": 3000, "rel_f4_f2": 3000, "rel_fold": 30000, "rel_swap": 10000, "C_runs": 3000}}}
 NSHARD = 32
 FOLD_INV = {1: ["pi", "theta", "s", "d-tajima"], 2: ["pi-xy", "f2", "fst", "king", "r0", "r1", "s"], 3: ["f3", "s"], 4: ["f4", "s"]}
@@ -62,6 +62,11 @@ def check_L(S, p):
             shape = [rng.randint(3, 12)]
         else:
             shape = rng.sample(range(2, 8), d)
+        if i % 6 == 4:
+            # spectra with thousands of entries (counts not divisible by the usual block sizes): dozens of samples per population
+            shape = {1: [rng.choice([4097, 5000, 8193])], 2: rng.choice([[70, 71], [65, 130], [33, 257], [300, 17]]),
+                     3: rng.choice([[17, 17, 17], [18, 17, 19], [9, 33, 21]]), 4: rng.choice([[9, 8, 9, 8], [5, 11, 7, 13], [17, 4, 5, 16]])}[d]
+            S.count("large_spectra")
         n = O.prod(shape)
         data = [rng.uniform(0.01, 100) for _ in range(n)]
         if rng.random() < 0.3:
@@ -102,6 +107,21 @@ def check_L(S, p):
             if not ok:
                 S.viol("C14:fold:%s" % nm, "[L shape %r] %s changes under fold with fill zero: %.12g -> %.12g" % (shape, nm, val(base, nm), val(fres, nm)), wit)
             S.case(key=digest([shape, wit["data"][:50], "fold", nm]), nontrivial=True)
+        # an entry that is not a number (an unknown count stored as NaN) in a polymorphic cell: a statistic that is NaN before folding
+        # stays NaN, one that is finite stays the same number - "unchanged" includes staying undefined
+        if i % 5 == 2 and n > 3:
+            xn = list(data)
+            xn[rng.randrange(1, n - 1)] = float("nan")
+            rn = harness.run_all([stats_req(shape, xn), {"op": "spec", "do": "fold", "shape": shape, "data": GS.hexes(xn), "fill": f2h(0.0)}])
+            if "data" in rn[1]:
+                fn = harness.run_all([{"op": "spec", "do": "stats", "shape": rn[1]["shape"], "data": rn[1]["data"]}])[0]
+                for nm in FOLD_INV[d]:
+                    a_, b_ = val(rn[0], nm), val(fn, nm)
+                    if a_ is None or b_ is None:
+                        continue
+                    S.count("rel_fold_nan_entry")
+                    if math.isnan(a_) != math.isnan(b_) or (math.isfinite(a_) and math.isfinite(b_) and not same(a_, b_, scale=abs(a_))):
+                        S.viol("C14:fold-nan:%s" % nm, "[L shape %r with one NaN entry] %s changes under fold with fill zero: %r -> %r" % (shape, nm, a_, b_), dict(wit, nan_data=GS.hexes(xn)))
         # monomorphic cells
         for nm in MONO_INV[d]:
             ok = same(val(base, nm), val(res[2], nm), scale=abs(val(base, nm) or 0))
